@@ -183,14 +183,24 @@ def basis_spline(  # pylint: disable=dangerous-default-value  # always replaced 
         if knots[i + j] != knots[i]
         else 0
     )
+    # Under `extend` the outermost intervals of non-zero width are continued to
+    # infinity (an interior knot may coincide with a bound).
+    first = next(
+        (i for i in range(degree, len(knots) - 1) if knots[i + 1] > knots[i]), degree
+    )
+    last = next(
+        (
+            i
+            for i in range(len(knots) - degree - 2, -1, -1)
+            if knots[i + 1] > knots[i]
+        ),
+        len(knots) - degree - 2,
+    )
     for i in range(len(knots) - 1):
         if extrapolation is SplineExtrapolation.EXTEND:
             cache[0][i] = (  # type: ignore
-                (x >= (knots[i] if i != degree else -numpy.inf))
-                & (
-                    x
-                    < (knots[i + 1] if i + 1 != len(knots) - degree - 1 else numpy.inf)
-                )
+                (x >= (knots[i] if i != first else -numpy.inf))
+                & (x < (knots[i + 1] if i != last else numpy.inf))
             ).astype(float)
         else:
             cache[0][i] = (
